@@ -58,12 +58,37 @@ def ratioWeighted [LT F] [DecidableLT F] (ak : List F) (Rk : List (List F)) (nSe
   if 0 < sumF ak ∨ sumF ak < 0 then (weightedSums ak Rk nSel).map (· / sumF ak)
   else weightedSums ak Rk nSel
 
+/-- the values of the flat values array (`src_idxs`, `evt_idxs`, values) that belong to source `k` and
+event `i` (the event selection produces at most one) -/
+def matching (src evt : List Nat) (vals : List F) (k i : Nat) : List F :=
+  ((List.zip (List.zip src evt) vals).filter (fun p => p.1.1 == k && p.1.2 == i)).map (·.2)
+
 /-- the dense `K × nSel` table of per-(source, event) values behind the flat values array of the
-code (`src_idxs`, `evt_idxs`, values): entry `(k, i)` is the sum of the values of all pairs `(k, i)`
-(there is at most one), `0` where the event selection produced no such pair -/
+code: entry `(k, i)` is the sum of the values of all pairs `(k, i)` (there is at most one), `0` where
+the event selection produced no such pair -/
 def densify (K nSel : Nat) (src evt : List Nat) (vals : List F) : List (List F) :=
-  (List.range K).map (fun k => (List.range nSel).map (fun i =>
-    sumF (((List.zip (List.zip src evt) vals).filter (fun p => p.1.1 == k && p.1.2 == i)).map (·.2))))
+  (List.range K).map (fun k => (List.range nSel).map (fun i => sumF (matching src evt vals k i)))
+
+/-- one pass of the source loop **as coded**:
+`src_mask = src_idxs == k;  R_i[evt_idxs[src_mask]] += R_ik[src_mask] * a_k[k]`.
+numpy evaluates the right-hand side from the old `R_i` and then assigns, so for a repeated event index
+the last assignment wins; pairs with an event index outside `R_i` do not occur (numpy would raise). -/
+def scatterAdd (acc : List F) (src evt : List Nat) (vals : List F) (k : Nat) (ak : F) : List F :=
+  (List.zip acc (List.range acc.length)).map (fun p =>
+    match (matching src evt vals k p.2).getLast? with
+    | some r => p.1 + r * ak
+    | none => p.1)
+
+/-- the numerators after `for k in range(n_sources)` on the flat values array -/
+def sparseSums (ak : List F) (src evt : List Nat) (vals : List F) (nSel : Nat) : List F :=
+  (List.zip ak (List.range ak.length)).foldl (fun acc p => scatterAdd acc src evt vals p.2 p.1)
+    (List.replicate nSel 0)
+
+/-- `SourceWeightedPDFRatio.get_ratio` on the flat `(N_values,)` arrays, as coded -/
+def ratioSparse [LT F] [DecidableLT F] (ak : List F) (src evt : List Nat) (vals : List F)
+    (nSel : Nat) : List F :=
+  if 0 < sumF ak ∨ sumF ak < 0 then (sparseSums ak src evt vals nSel).map (· / sumF ak)
+  else sparseSums ak src evt vals nSel
 
 /-- the specification: weighted mean of the per-source ratios of event `i` -/
 def weightedMeanAt (ak : List F) (Rk : List (List F)) (i : Nat) : F :=
@@ -87,6 +112,18 @@ def calcRow (init : List F) (groups : List (List F × List F)) (sidx : Nat := 0)
   | [] => init
   | (w, y) :: rest =>
       calcRow (setSlice init sidx (List.zipWith (· * ·) w y)) rest (sidx + w.length)
+
+/-- split `xs` into consecutive pieces of the given sizes (the per-group weight arrays
+`_src_weight_array_list` and yield arrays `Yg`) -/
+def splitSizes {α : Type} (sizes : List Nat) (xs : List α) : List (List α) :=
+  match sizes with
+  | [] => []
+  | n :: rest => xs.take n :: splitSizes rest (xs.drop n)
+
+/-- `calcRow` with the slice starts written out as `sliceBounds` (the `shg_src_slice` of the code) -/
+def calcRowS (init : List F) (groups : List (List F × List F)) (sidx : Nat := 0) : List F :=
+  (List.zip (sliceBounds (groups.map (fun g => g.1.length)) sidx) groups).foldl
+    (fun row p => setSlice row p.1.1 (List.zipWith (· * ·) p.2.1 p.2.2)) init
 
 end
 
